@@ -328,7 +328,7 @@ func genC19Fault(r *rng, n int, w *bufio.Writer) {
 					ans = "F"
 					note = "FIRST DIFFERENCE: " + res.diff + "; " + note
 				}
-				fmt.Fprintf(w, "assert c19fault %d %s %d = %s ## %s\n", k, kinds[kind], L, ans, strings.ReplaceAll(note, "\n", "\\n"))
+				fmt.Fprintf(w, "assert c19fault %d %s %d %s = %s ## %s\n", k, kinds[kind], L, gfHash(world.describe()), ans, strings.ReplaceAll(note, "\n", "\\n"))
 				gfModelLine(w, "c19model", t, closed, res.closeAt, res.entries,
 					fmt.Sprintf("abstract trace: fault %s before query %d of %d (entry %d of %d)", kinds[kind], k, L, res.closeAt, len(res.entries)))
 				done++
